@@ -515,7 +515,67 @@ def shared_member_rule(run, model, rule):
                 seen = gg.reach([tgt], None, heads, follow_exc=False)
                 if not (seen & store_ids):
                     ok = True
+        if ok:
+            why = _shared_member_guard_shape(model, nf, guards)
+            if why is not None:
+                run.violation(rule, nf.fi.qual + ":guard", why[1], nf.fi.loc(why[0]), None, first_line(why[0]))
+            else:
+                run.ok(rule, nf.fi.qual + ":guard", "the identity test compares the unwrapped function with the member found on the base through the MRO (getattr)", nf.fi.loc(guards[0]))
         run.check(ok, rule, nf.fi.qual, "a member that is the very function object of a base is left as it is (identity test bypasses the merge)", "the merge also runs for a member whose function object is a base's own (`f = Base.f`, or the untouched accessors of `@Base.prop.getter`): its checker is shared with the base, so the merged lists are stored on the base's checker and every contract of the base is duplicated there", nf.fi.loc())
+
+
+def _shared_member_guard_shape(model, nf, guards):
+    """(stmt, why) if the re-use guard cannot recognise every re-used member, else None.
+
+    * the function compared is the one whose checker is merged (after unwrapping static/class methods);
+    * the base's member is looked up the way inheritance does (``getattr`` through the MRO), not in the direct base's
+      own ``__dict__`` only.
+    """
+    flow = nf.flow
+    own = None
+    for n in flow.cfg.nodes:
+        for call, c, a in calls_in(n):
+            t = flow.term(call, n)
+            if t[0] == "call" and fi_of_term(model, t[1]) is nf.finder and not any(s_ == ("elem", ("param", nf.bases_p)) for s_ in subterms(t)):
+                arg = call.args[0] if call.args else ([kw.value for kw in call.keywords if kw.arg == "func"] or [None])[0]
+                if arg is not None:
+                    own = strip_sites(flow.term(arg, n))
+    if own is None:
+        return None
+    for g in guards:
+        exprs = [g.ast]
+        # one level of explanatory temporaries (``members = [... for base in bases]``)
+        for sub in ast.walk(g.ast):
+            if isinstance(sub, ast.Name) and isinstance(sub.ctx, ast.Load):
+                for st in ast.walk(nf.fi.node):
+                    if isinstance(st, ast.Assign) and any(isinstance(tg, ast.Name) and tg.id == sub.id for tg in st.targets) and isinstance(st.value, (ast.ListComp, ast.GeneratorExp, ast.SetComp, ast.Call, ast.Tuple, ast.List)):
+                        exprs.append(st.value)
+        mro, own_dict = [], []
+        for e in exprs:
+            for sub in ast.walk(e):
+                if isinstance(sub, ast.Call) and isinstance(sub.func, ast.Name) and sub.func.id == "getattr" and len(sub.args) >= 2 and isinstance(sub.args[1], ast.Name) and sub.args[1].id == nf.key_p:
+                    mro.append(sub)
+                if isinstance(sub, ast.Call) and isinstance(sub.func, ast.Name) and sub.func.id == "vars":
+                    own_dict.append(sub)
+                if isinstance(sub, ast.Attribute) and sub.attr == "__dict__":
+                    own_dict.append(sub)
+        if own_dict:
+            return g.stmt, "the re-use test looks the member up in the direct base's own `__dict__` (`%s`): a member the base itself inherited is not recognised, so the merge runs on the shared checker and duplicates the contracts of the class that defined it" % src_of(own_dict[0], 50)
+        if not mro:
+            return g.stmt, "the re-use test does not look the member up on the bases (no getattr(base, %s))" % nf.key_p
+        for sub in ast.walk(g.ast):
+            if isinstance(sub, ast.Compare) and len(sub.ops) == 1 and isinstance(sub.ops[0], (ast.Is, ast.IsNot, ast.In, ast.NotIn)):
+                sides = [sub.left, sub.comparators[0]]
+                names = [x for x in sides if isinstance(x, ast.Name)]
+                if isinstance(sub.ops[0], (ast.In, ast.NotIn)):
+                    names = [sub.left] if isinstance(sub.left, ast.Name) else []
+                for nm in names:
+                    t = strip_sites(flow.term(nm, g))
+                    if t[0] in ("unk",):
+                        continue  # a comprehension variable
+                    if t != own:
+                        return g.stmt, "the re-use test compares %s, but the function whose contracts are merged is %s: a wrapped member (staticmethod/classmethod object) never is the base's function, so the merge runs on the checker shared with the base" % (show(t, 50), show(own, 60))
+    return None
 
 
 def namespace_rebind_rule(run, model, rule):
@@ -548,3 +608,40 @@ def namespace_rebind_rule(run, model, rule):
                 bad = "the namespace entry is re-bound although a checker was found on the function's decorator stack: decorators stacked above the contracts (e.g. a functools.wraps decorator) are dropped from the class"
             val = flow.term(st.ast.value, st)
     run.check(bad is None, rule, nf.fi.qual, "namespace[key] is replaced only if no checker was found (then by the new checker, re-wrapped as static/class method where needed)", bad or "", nf.fi.loc(stores[0]) if stores else nf.fi.loc(), None, first_line(stores[0].stmt) if stores else None)
+
+
+def decorate_always(run, model, rule):
+    """Every class created by the metaclass gets its OWN invariant lists and has its namespace decorated: both loops of
+    the namespace pass lie on every path through it (no early exit that lets the class share a base's lists)."""
+    fi = model.func("_metaclass._dbc_decorate_namespace")
+    fl = get_flow(model, fi)
+    run.saw(fl)
+    gg = GuardGraph(fl)
+    collapse = model.func("_metaclass._collapse_invariants")
+    must = []
+    for n in fl.cfg.nodes:
+        for call, c, a in calls_in(n):
+            if fi_of_term(model, fl.term(call.func, n)) is collapse:
+                # the loop around the call (if any) is entered once: its `iter` node stands for it
+                anchor = n
+                for h in fl.cfg.nodes:
+                    if h.kind == "next" and isinstance(h.stmt, (ast.For,)) and any(sub is n.stmt for st in h.stmt.body for sub in ast.walk(st)):
+                        for k, p in h.pred:
+                            if p.kind == "iter" and p.stmt is h.stmt:
+                                anchor = p
+                must.append(("the merge of the invariant lists", anchor))
+    for h in fl.cfg.nodes:
+        if h.kind == "next":
+            for k, p in h.pred:
+                if p.kind == "iter" and p.stmt is h.stmt and strip_sites(fl.term(p.ast, p)) == ("call", ("attr", ("param", fi.params[1]), "items"), (), ()):
+                    must.append(("the decoration of the namespace's members", p))
+    if len(must) < 2:
+        raise AnalysisError("%s: the invariant merge and the loop over the namespace were not both found" % fi.qual)
+    for what, node in must:
+        seen = gg.reach([fl.cfg.entry], None, {node.id}, follow_exc=False)
+        bypass = fl.cfg.exit_return.id in seen
+        culprit = None
+        if bypass:
+            rets = [x for x in fl.cfg.nodes if x.kind == "return" and x.id in seen]
+            culprit = rets[0] if rets else None
+        run.check(not bypass, rule, "%s:%s" % (fi.qual, what.split(" of ")[0].replace("the ", "")), "%s happens for every class the metaclass creates" % what, "%s can be skipped (`%s`): such a class has no lists of its own and shares -- and extends -- the lists of its base" % (what, first_line(culprit.stmt) if culprit is not None else "early exit"), fi.loc(culprit) if culprit is not None else fi.loc(), None, first_line(culprit.stmt) if culprit is not None else None)
